@@ -57,7 +57,9 @@ func paginateIntrinsic(fr *frame, com *ssa.CallCommon, args []Val, st *State, re
 	kvs := fr.asValue(args[0], st)
 	keys := ft.fresh("pgkeys", "Seq_Bytes")
 	mkEnv := func(s *State, idx string) *Env {
+		fr.atCall = true
 		env := fr.invEnv(fr.curBlk, s)
+		fr.atCall = false
 		env.vars["$range"] = SV{keys, goT(typesSliceOfBytes())}
 		env.vars["$kvs"] = SV{kvs, goT(com.Args[0].Type())}
 		env.vars["$i"] = SV{idx, tInt}
